@@ -4,6 +4,7 @@ import (
 	"fmt"
 	"reflect"
 	"sort"
+	"time"
 )
 
 // ---------------------------------------------------------------------------
@@ -537,4 +538,19 @@ func Atomic() {
 		return
 	}
 	yield(pendingOp{kind: opYield, what: "atomic"})
+}
+
+// After stands in for time.After in instrumented code: the timer is a
+// controlled thread that fires as soon as the scheduler lets it, so whether a
+// timeout lands before the event it guards is a scheduling choice.
+func After(d time.Duration) <-chan time.Time {
+	if direct() {
+		return time.After(d)
+	}
+	ch := MkB(make(chan time.Time, 1))
+	Go(func() {
+		Step("timer fires")
+		S(ch) <- time.Now()
+	})
+	return ch
 }
